@@ -341,6 +341,9 @@ class Check:
             return 0
         rd = os.path.join(BUILD, "replay")
         os.makedirs(rd, exist_ok=True)
+        for old in os.listdir(rd):
+            if old.startswith(self.pid + "_"):
+                os.remove(os.path.join(rd, old))
         for i, (obj, no_input) in enumerate(self.violations[:20]):
             p = os.path.join(rd, f"{self.pid}_{i}.json")
             obj = dict(property=self.pid, tier=self.tier, seed=self.seed, **obj)
